@@ -87,6 +87,11 @@ theorem gen_await :
     stmts_future_await_suspend = Await.Stmts.future_await_suspend ∧
     stmts_set_awaiter = Await.Stmts.set_awaiter := by decide
 
+/-- `BasicPromise::resume_in_executor`: the closure is handed to `executor->invoke`; ANY code != 0 (the
+BasicExecutor contract for "neither moved nor called") makes the library resume the coroutine in place, so a
+rejected resumption never leaves the coroutine suspended -/
+theorem gen_resume_in_executor : stmts_resume_in_executor = Await.Stmts.resume_in_executor := by decide
+
 /-! ## Coroutine futex (model: Babylon/Coro/Futex.lean, repaired configuration `cfgFixed`)
 
 `Reach s` = `s` is reachable from the initial state by ANY interleaving of any number of client threads
@@ -372,16 +377,26 @@ example : ∃ s, Cancel.Reach s ∧ s.result 0 = some none ∧ s.winner 0 = some
 /-! ## Task / future awaits (model: Babylon/Coro/Await.lean) -/
 
 /-- **await_resumed_on_executor.**  For every interleaving of tasks awaiting tasks (bound to the same, another
-or no executor), tasks awaiting futures (registration racing with `set_value`) and executors running pending
-resumptions: a coroutine bound to executor `e` only ever runs in the context of `e` - it is (re)started
-either by `invoke` on its own executor or inline by a thread that is already running in that executor;
-a pending resumption is always queued on the coroutine's own executor; and no coroutine is resumed while
-it is not suspended (every suspension is resumed at most once). -/
+or no executor), tasks awaiting futures (registration racing with `set_value`), executors running pending
+resumptions and executors REJECTING them (fault input; `resume_in_executor` then resumes in place): a coroutine
+bound to executor `e` only ever runs in the context of `e` - it is (re)started either by `invoke` on its own
+executor or inline by a thread that is already running in that executor - unless `e` itself refused the
+resumption (`fb`), the only case in which the library continues it in place; a pending resumption is always
+queued on the coroutine's own executor; a pending resumption can always be completed, accepted or rejected
+(the coroutine is never left suspended by the hand-over); and no coroutine is resumed while it is not
+suspended (every suspension is resumed at most once). -/
 theorem await_resumed_on_executor {s : Await.State} (h : Await.Reach s) :
     s.wrongCtx = false ∧ s.bad = false ∧
-    (∀ f c e, s.fr f = .running c → s.fex f = some e → c = some e) ∧
-    (∀ f via, s.fr f = .resuming via → via = s.fex f) :=
-  ⟨h.inv.noWrong, h.inv.noBad, h.inv.ctxOk, h.inv.viaOk⟩
+    (∀ f c e, s.fr f = .running c → s.fex f = some e → c = some e ∨ s.fb f = true) ∧
+    (∀ f via, s.fr f = .resuming via → via = s.fex f ∧
+      (∃ s', Await.run s f = some s' ∧ s'.fr f = .running via) ∧
+      (∀ c, ∃ s', Await.reject s f c = some s' ∧ s'.fr f = .running c)) := by
+  refine ⟨h.inv.noWrong, h.inv.noBad, h.inv.ctxOk, ?_⟩
+  intro f via hr
+  refine ⟨h.inv.viaOk f via hr, ⟨s.enter f via, by simp [Await.run, hr], by simp [Await.State.enter, Await.upd]⟩, ?_⟩
+  intro c
+  exact ⟨{ s with fr := Await.upd s.fr f (.running c), fb := Await.upd s.fb f true },
+    by simp [Await.reject, hr], by simp [Await.upd]⟩
 
 /-- non-vacuity: frame 0 on executor 1 awaits task 1 bound to executor 2; the task is started through
 executor 2, finishes there, and frame 0 is queued back on executor 1 -/
